@@ -412,6 +412,15 @@ void libxmp_load_epilogue(struct context_data *ctx)
 	}
 #endif
 
+	/* xmp_get_frame_info is valid before xmp_start_player: don't report
+	 * (or index with) the position of a previously played module. */
+	p->pos = p->ord = p->row = p->frame = 0;
+	p->speed = p->bpm = p->gvol = 0;
+	p->loop_count = 0;
+	p->sequence = 0;
+	p->current_time = p->frame_time = 0;
+	ctx->s.ticksize = 0;
+
 	p->filter = 0;
 	p->mode = XMP_MODE_AUTO;
 	p->flags = p->player_flags;
